@@ -163,6 +163,7 @@ func topoPkgs(roots []*packages.Package) []*packages.Package {
 }
 
 func (w *World) register(pi *PkgInfo, cf *ContractFile, stdlib bool) error {
+	w.pendingGhosts = append(w.pendingGhosts, cf.Ghosts...)
 	for _, sf := range cf.Specs {
 		if _, dup := w.specs[sf.Name]; dup {
 			return fmt.Errorf("%s: duplicate spec function %s", cf.Path, sf.Name)
